@@ -2,6 +2,7 @@ import SamlModel.Generated.FnDriver
 import SamlModel.Model.ChkDriver
 import SamlModel.Model.SsoDriver
 import SamlModel.Model.CbDriver
+import SamlModel.Model.SloDriver
 import SamlModel.Exec.C16
 /-! Driver.step: dispatch of one protocol line.  Unknown or unparsable ops yield `bad-op`. -/
 namespace Driver
@@ -14,6 +15,7 @@ def step (line : String) : String :=
     | none => "bad-op"
   | "sso" :: args => (SsoDriver.run args).getD "bad-op"
   | "cb" :: args => (CbDriver.run args).getD "bad-op"
+  | "slo" :: args => (SloDriver.run args).getD "bad-op"
   | "chk" :: args => (ChkDriver.run args).getD "bad-op"
   | _ => "bad-op"
 
